@@ -559,6 +559,9 @@ impl TensorWal {
         self.file.flush()?;
         self.file.get_ref().sync_all()?;
 
+        #[cfg(feature = "neumann_verif")]
+        crate::verif_hooks::point("wal_rotate:before_rename");
+
         // Delete oldest rotated file
         let oldest = self.rotated_path(self.config.max_rotated_files);
         if oldest.exists() {
@@ -579,11 +582,17 @@ impl TensorWal {
             std::fs::rename(&self.path, self.rotated_path(1))?;
         }
 
+        #[cfg(feature = "neumann_verif")]
+        crate::verif_hooks::point("wal_rotate:after_rename");
+
         // Create fresh WAL
         let file = File::create(&self.path)?;
         self.file = BufWriter::new(file);
         self.current_size = 0;
         self.entry_count = 0;
+
+        #[cfg(feature = "neumann_verif")]
+        crate::verif_hooks::point("wal_rotate:after_create");
 
         Ok(())
     }
